@@ -343,6 +343,11 @@ func catalogue() []entry {
 		subs := [][]Sub{
 			{subS2(), subLigA()}, {subLigA(), subS2()}, {subLigB(), subMul(), subS1()},
 			{subAlt(), subS2()}, {subPP1(), subP1()}, {subP2(), subPP2()},
+			// an earlier subtable that covers a glyph with an all-zero (nil) value
+			// record still wins over a later subtable with a real adjustment
+			{Sub{Kind: "p1", Cov: []int{gA, gM}, V: vr(0, 0, 0)}, Sub{Kind: "p1", Cov: []int{gA, gM, gL}, V: vr(0, 0, 50)}},
+			{Sub{Kind: "p2", GVs: []GV{{gA, vr(0, 0, 0)}, {gM, vr(3, 0, 0)}}}, Sub{Kind: "p1", Cov: []int{gA, gB, gM}, V: vr(7, 7, 70)}},
+			{Sub{Kind: "p1", Cov: []int{gB}, V: vr(0, 0, 0)}, Sub{Kind: "p2", GVs: []GV{{gA, vr(1, 1, 1)}, {gB, vr(0, 0, -60)}}}},
 			{ctxSub("c1", 2, false, false, []Action{{0, 1}}), subS2()},
 			{ctxSub("k3", 2, true, false, []Action{{1, 1}}), ctxSub("c3", 1, false, false, []Action{{0, 1}})},
 		}
